@@ -85,6 +85,28 @@ pub mod bitlem {
     pub broadcast proof fn lemma_or_mono_r_u64(a: u64, b: u64, f: u64)
         requires b & f == f ensures #[trigger] ((a | b) & f) == f
     { assert(b & f == f ==> ((a | b) & f) == f) by (bit_vector); }
+    /// for a single-bit mask "some bit of c is set" and "every bit of c is set" are the same test (contains <-> intersects)
+    pub broadcast proof fn lemma_single_bit_i32(x: i32, c: i32)
+        requires c > 0, c & sub(c, 1) == 0
+        ensures (#[trigger] (x & c) != 0) == (x & c == c)
+    { assert(c > 0 && c & sub(c, 1) == 0 ==> (((x & c) != 0) == (x & c == c))) by (bit_vector); }
+    pub broadcast proof fn lemma_single_bit_o_path(x: i32) ensures (#[trigger] (x & 0o10000000i32) != 0) == (x & 0o10000000i32 == 0o10000000i32)
+    { assert(((x & 0o10000000i32) != 0) == (x & 0o10000000i32 == 0o10000000i32)) by (bit_vector); }
+    pub broadcast proof fn lemma_single_bit_o_nofollow(x: i32) ensures (#[trigger] (x & 0o400000i32) != 0) == (x & 0o400000i32 == 0o400000i32)
+    { assert(((x & 0o400000i32) != 0) == (x & 0o400000i32 == 0o400000i32)) by (bit_vector); }
+    pub broadcast proof fn lemma_single_bit_o_directory(x: i32) ensures (#[trigger] (x & 0o200000i32) != 0) == (x & 0o200000i32 == 0o200000i32)
+    { assert(((x & 0o200000i32) != 0) == (x & 0o200000i32 == 0o200000i32)) by (bit_vector); }
+    pub broadcast proof fn lemma_single_bit_o_creat(x: i32) ensures (#[trigger] (x & 0o100i32) != 0) == (x & 0o100i32 == 0o100i32)
+    { assert(((x & 0o100i32) != 0) == (x & 0o100i32 == 0o100i32)) by (bit_vector); }
+    pub broadcast proof fn lemma_single_bit_o_excl(x: i32) ensures (#[trigger] (x & 0o200i32) != 0) == (x & 0o200i32 == 0o200i32)
+    { assert(((x & 0o200i32) != 0) == (x & 0o200i32 == 0o200i32)) by (bit_vector); }
+    pub broadcast proof fn lemma_single_bit_o_cloexec(x: i32) ensures (#[trigger] (x & 0o2000000i32) != 0) == (x & 0o2000000i32 == 0o2000000i32)
+    { assert(((x & 0o2000000i32) != 0) == (x & 0o2000000i32 == 0o2000000i32)) by (bit_vector); }
+    pub broadcast proof fn lemma_single_bit_o_noctty(x: i32) ensures (#[trigger] (x & 0o400i32) != 0) == (x & 0o400i32 == 0o400i32)
+    { assert(((x & 0o400i32) != 0) == (x & 0o400i32 == 0o400i32)) by (bit_vector); }
+    /// removing bits: xor with the masked part is the same as and-not
+    pub broadcast proof fn lemma_xor_mask_u32(m: u32, k: u32) ensures #[trigger] (m ^ (m & k)) == m & !k
+    { assert((m ^ (m & k)) == m & !k) by (bit_vector); }
     /// `(S_IFxxx | (mode & !S_IFMT))` has exactly the type bits S_IFxxx and the permission bits of mode
     pub broadcast proof fn lemma_fmt_or_type(f: u32, m: u32)
         requires f & super::libc::S_IFMT == f
@@ -117,7 +139,7 @@ pub mod bitlem {
         ensures k & g == g
     { assert((k & f == f && f & g == g) ==> k & g == g) by (bit_vector); }
 }
-//@broadcast bitlem::lemma_or_contains_r_u32 bitlem::lemma_or_contains_l_u32 bitlem::lemma_or_mono_l_u32 bitlem::lemma_or_mono_r_u32 bitlem::lemma_or_contains_r_u64 bitlem::lemma_or_contains_l_u64 bitlem::lemma_or_mono_l_u64 bitlem::lemma_or_mono_r_u64 bitlem::lemma_fmt_or_type bitlem::lemma_fmt_or_perm bitlem::lemma_or_contains_r bitlem::lemma_or_contains_l bitlem::lemma_or_mono_l bitlem::lemma_or_mono_r
+//@broadcast bitlem::lemma_single_bit_o_path bitlem::lemma_single_bit_o_nofollow bitlem::lemma_single_bit_o_directory bitlem::lemma_single_bit_o_creat bitlem::lemma_single_bit_o_excl bitlem::lemma_single_bit_o_cloexec bitlem::lemma_single_bit_o_noctty bitlem::lemma_single_bit_i32 bitlem::lemma_xor_mask_u32 bitlem::lemma_or_contains_r_u32 bitlem::lemma_or_contains_l_u32 bitlem::lemma_or_mono_l_u32 bitlem::lemma_or_mono_r_u32 bitlem::lemma_or_contains_r_u64 bitlem::lemma_or_contains_l_u64 bitlem::lemma_or_mono_l_u64 bitlem::lemma_or_mono_r_u64 bitlem::lemma_fmt_or_type bitlem::lemma_fmt_or_perm bitlem::lemma_or_contains_r bitlem::lemma_or_contains_l bitlem::lemma_or_mono_l bitlem::lemma_or_mono_r
 
 /// `bits` has every bit of `f`
 pub open spec fn has(bits: i32, f: i32) -> bool { bits & f == f }
@@ -156,6 +178,42 @@ impl vstd::std_specs::ops::BitOrSpecImpl for OpenFlags {
 impl core::ops::BitOr for OpenFlags {
     type Output = OpenFlags;
     fn bitor(self, o: OpenFlags) -> (r: OpenFlags) { OpenFlags { bits: self.bits | o.bits } }
+}
+// the other bitflags operators a refactoring may use instead of insert/remove/contains (same meaning as in bitflags 2;
+// OpenFlags declares `const _ = !0`, so `!F` keeps every bit)
+impl vstd::std_specs::ops::BitAndSpecImpl for OpenFlags {
+    open spec fn obeys_bitand_spec() -> bool { true }
+    open spec fn bitand_req(self, o: OpenFlags) -> bool { true }
+    open spec fn bitand_spec(self, o: OpenFlags) -> OpenFlags { OpenFlags { bits: self.bits & o.bits } }
+}
+impl core::ops::BitAnd for OpenFlags {
+    type Output = OpenFlags;
+    fn bitand(self, o: OpenFlags) -> (r: OpenFlags) { OpenFlags { bits: self.bits & o.bits } }
+}
+impl vstd::std_specs::ops::NotSpecImpl for OpenFlags {
+    open spec fn obeys_not_spec() -> bool { true }
+    open spec fn not_req(self) -> bool { true }
+    open spec fn not_spec(self) -> OpenFlags { OpenFlags { bits: !self.bits } }
+}
+impl core::ops::Not for OpenFlags {
+    type Output = OpenFlags;
+    fn not(self) -> (r: OpenFlags) { OpenFlags { bits: !self.bits } }
+}
+impl vstd::std_specs::ops::BitOrAssignSpecImpl for OpenFlags {
+    open spec fn obeys_bitor_assign_spec() -> bool { true }
+    open spec fn bitor_assign_req(&self, o: OpenFlags) -> bool { true }
+    open spec fn bitor_assign_spec(&self, o: OpenFlags) -> &OpenFlags { &OpenFlags { bits: self.bits | o.bits } }
+}
+impl core::ops::BitOrAssign for OpenFlags {
+    fn bitor_assign(&mut self, o: OpenFlags) { self.bits = self.bits | o.bits; }
+}
+impl vstd::std_specs::ops::BitAndAssignSpecImpl for OpenFlags {
+    open spec fn obeys_bitand_assign_spec() -> bool { true }
+    open spec fn bitand_assign_req(&self, o: OpenFlags) -> bool { true }
+    open spec fn bitand_assign_spec(&self, o: OpenFlags) -> &OpenFlags { &OpenFlags { bits: self.bits & o.bits } }
+}
+impl core::ops::BitAndAssign for OpenFlags {
+    fn bitand_assign(&mut self, o: OpenFlags) { self.bits = self.bits & o.bits; }
 }
 
 #[derive(Clone, Copy)]
